@@ -1745,8 +1745,8 @@ func (e *Engine) lockClassOfField(cls string) (string, bool) {
 		for i := 0; i < st.NumFields(); i++ {
 			if st.Field(i).Name() == parts[1] {
 				k := typeKey(st.Field(i).Type())
-				if k == "sync.Mutex" || k == "sync.Once" || k == "sync.RWMutex" {
-					return k, true
+				if k == "sync.Mutex" || k == "sync.Once" || k == "sync.RWMutex" || k == "sync.WaitGroup" || k == "sync.Map" || strings.HasPrefix(k, "sync/atomic.") {
+					return k, true // synchronisation objects: safe for concurrent use by construction
 				}
 			}
 		}
